@@ -48,6 +48,9 @@ checks = {
  "C20": dict(cat="exploration", tech="bounded-exhaustive enumeration of case-insensitive patterns x inputs x ALL case-flip masks of pattern letters and input letters (whole orbit compared)",
    text="Every pattern of the CASE grammar (literals, classes, ranges, negation, subtraction incl. nested, backreferences, leading literal runs, category escapes) compiled with IgnoreCase (also code-gen analysis and RightToLeft), every input up to the bound, and every spelling of both obtained by flipping the case of any subset of letters must give the same outcome (found, index, length, all captures) through the rune and string entry points; ASCII, Latin-1, Greek and Cyrillic simple pairs; corpus patterns with their literal letters flipped.",
    note="Only letters whose fold orbit is a simple upper/lower pair (checked against unicode.SimpleFold at start-up). Two corpus patterns (\\p{sb=lower}) are recorded findings.", ref="4 C20"),
+ "C12": dict(cat="model_checking", eng="E-bfs", tech="explicit-state breadth-first search over call histories on the real code with a canonical dump of the hidden state (pooled runners, global pools, replacement cache, clock); every transition compared with the fresh-world result",
+   text="A 33-call alphabet (all entry-point kinds on six Regexps: bool-only eligible, balancing, stack-limited, sparse numbers, a twin sharing only the global pools, a timed match that times out in virtual time; inputs crossing three buffer size classes; more replacements than the cache holds; pool events gc / rotate) is explored breadth-first with states de-duplicated by a canonical dump of the hidden state; every transition runs the real call (after replaying the shortest history to its source state on a fresh world) and must return the fresh-world result. The whole alphabet is searched to depth 3 (5 thorough); per-Regexp sub-alphabets are searched to depth 9 (12), reaching a fixpoint for several of them.",
+   note="State abstraction: quick omits stack / buffer contents from the key (argued safe in DESIGN 3.5), thorough includes them. Single client thread; concurrency is C11's business. Runs on the overlay build (deterministic pool shim, virtual time).", ref="4 C12, 3.5"),
  "C03": dict(cat="exploration", tech="bounded-exhaustive differential: accelerated scan vs naive scan of the same compiled program at every start offset",
    text="For every enumerated pattern (families chosen per search mode; code-gen analysis on/off; both directions) and every input and start offset, the public rune and string entry points must return exactly what the verif-only naive scan (attempt at every position, no filter, no candidate search, no cut-off) returns for the same compiled program.",
    note="Trusted: the hook VerifNaiveScan and the interpreter itself (it is common to both sides; its meaning is C01's business). Bounds as printed in the evidence.", ref="4 C03"),
@@ -65,6 +68,7 @@ m = {
  },
  "engines": [
    {"name":"E-enum","path":"harness/","serves_properties":sorted(k for k in checks if checks[k].get("eng","E-enum")=="E-enum"),"kind_free_text":E_ENUM},
+   {"name":"E-bfs","path":"harness/c12.go","serves_properties":["C12"],"kind_free_text":"explicit-state search: state = call history, canonical key = dump of hidden state taken through an overlay-only accessor; successor = replay on a fresh world + one call; BFS to a depth bound or fixpoint"},
    {"name":"E-sched","path":"harness/sched.go + shim/ + mkoverlay/","serves_properties":sorted(k for k in checks if checks[k].get("eng")=="E-sched"),"kind_free_text":"stateless schedule exploration: controlled scheduler (one runnable goroutine at a time, scheduling points at every sync/atomic/time/pool operation, virtual clock), DFS over choice sequences bounded by preemptions, tie departures and deviations (timer jitter, pool miss/drop); the code under test is /repo rebuilt through a go build -overlay that only rewrites imports"},
  ],
  "checks": [],
